@@ -80,7 +80,7 @@ def corpus(seed, count=96):
             path = os.path.join(spec_dir, fn)
             if os.path.exists(path) and sha256_file(path)[:16] == h:
                 spec.append(fn)
-    key = sha(hash_files([os.path.join(VERIF, "tools", "wasmgen.py"), os.path.join(VERIF, "tools", "wasmenc.py"), os.path.join(VERIF, "tools", "spec_valid_list.txt")]), str(seed), str(count), str(len(spec)), "v6")
+    key = sha(hash_files([os.path.join(VERIF, "tools", "wasmgen.py"), os.path.join(VERIF, "tools", "wasmenc.py"), os.path.join(VERIF, "tools", "spec_valid_list.txt")]), str(seed), str(count), str(len(spec)), "v7")
     d, ok = cached_dir("xlcorpus", key)
     if ok:
         return d
@@ -90,6 +90,8 @@ def corpus(seed, count=96):
     rnd = random.Random(seed)
     lines, sweep = [], []
     picks = set(rnd.sample(spec, min(48, len(spec))))
+    # always present: modules that use the bulk-memory instructions referring to other sections (memory.init, data.drop, table.init)
+    picks |= set(f for f in spec if re.match(r"(bulk|memory_init|table_init|data_drop)\.\d+\.wasm$", f) and int(f.split(".")[1]) < 6)
     extra = [os.path.join(REPO, "examples", "coremark", "coremark.wasm")]
     for path in [os.path.join(spec_dir, f) for f in spec] + extra:
         if not os.path.exists(path):
